@@ -62,8 +62,12 @@ def impl_oracle(case, r):
                 # the shard-level metadata of shard j is what the shard records (a rejected write can set it too: the label is attached
                 # before the writer validates the values)
                 v_last = _m
-                v_next = vof.get(shards[j + 1][1][0], 0)
-                if not (v_last and v_next and v_last != v_next):
+                # the write that made the filler leave shard j lies between the shard's last example and the next shard's first one
+                # (both ends included on the right); it may itself have been rejected by the shard writer, because the roll-over and
+                # the new label happen before the values are validated
+                nxt = shards[j + 1][1][0]
+                trig = [v for (i, v, ok) in vals[int(s)] if ex[-1] < i <= nxt and v and v != v_last]
+                if not (v_last and trig):
                     bad.append(("nonfull-before-last", f"split {s} shard {j} holds {len(ex)} != {eps} with unchanged metadata"))
     return bad
 
